@@ -35,6 +35,7 @@ func main() {
 		out := fs.String("out", "", "summary JSON file")
 		workers := fs.Int("workers", 12, "worker processes")
 		from := fs.Int("from", 0, "first case index")
+		mult := fs.Int("mult", 1, "multiply the default case count (search budget)")
 		fs.Parse(os.Args[2:])
 		p, ok := jph.Props[*prop]
 		if !ok {
@@ -42,7 +43,7 @@ func main() {
 			os.Exit(2)
 		}
 		if *n == 0 {
-			*n = p.Count(*tier)
+			*n = p.Count(*tier) * *mult
 		}
 		self, _ := os.Executable()
 		sum := jph.RunParent(jph.RunOpts{Prop: *prop, Seed: *seed, Tier: *tier, N: *n, SpecExe: *spec, ImplExe: *impl, PegExe: *peg,
